@@ -217,6 +217,18 @@ def _verify(E, reg, qualname, rep, ghosts):
         o.backend = "z3-5.1(api) sat-check"
         o.reason = "" if found else ("cover: model search returned unknown" if unknown else "cover not reachable: the contract may be vacuous")
         E.obls.append(o)
+    # vacuity: at least one normal exit must not be provably infeasible (a contradictory assumption proves everything)
+    if normal_exits > 0:
+        feasible_exit = False
+        for s in outs:
+            if s.status is None or s.status[0] == "return":
+                if solve.check_sat(E.axioms_now() + s.pc, 2000) != "unsat":
+                    feasible_exit = True
+                    break
+        if not feasible_exit:
+            o = Obligation(f"{qualname}/vacuity[some-normal-exit-is-consistent]", qualname, "vacuity", [], z3.BoolVal(False))
+            o.status, o.reason = "refuted", "every normal exit has a contradictory path condition: assumptions are inconsistent"
+            E.obls.append(o)
     if normal_exits == 0 and not c.raises_any and not c.exsures:
         o = Obligation(f"{qualname}/vacuity[normal-exit-exists]", qualname, "vacuity", [], z3.BoolVal(False))
         o.status, o.reason = "refuted", "no path reaches a normal exit"
@@ -304,6 +316,29 @@ def _discharge_all(E, rep):
                         from .replay import try_replay
                         o.replay = try_replay(E, E.cur, r.model, E.entry_state, E.entry_frame, getattr(o, "clause", None),
                                               "raises" if o.kind == "raises" else "post")
+    # native counterexample search for what the solver left open (refuter only: it never proves anything)
+    open_obls = [o for o in E.obls if o.status == "undecided" and o.func == E.cur and not E.cur.startswith("lemma:")
+                 and (o.kind.startswith("post#") or o.kind == "raises") and not getattr(o, "tainted", None)]
+    if open_obls and E.cur in E.reg.contracts:
+        from .search import search
+        import os
+        seen = {}
+        for o in open_obls:
+            seen.setdefault(o.id, (o.id, "raises" if o.kind == "raises" else "post", getattr(o, "clause", None)))
+        try:
+            found = search(E, E.reg, E.cur, E.reg.contracts[E.cur], list(seen.values()),
+                           seed=int(os.environ.get("VERIF_SEED", "0") or 0), tries=600 if E.tier == "thorough" else 250)
+        except Exception as e:
+            found = {}
+            E.assumptions.add(f"native counterexample search failed: {type(e).__name__}: {e}")
+        for o in open_obls:
+            w = found.get(o.id)
+            if w is not None:
+                o.status = "refuted"
+                o.backend = (o.backend or "") + "+native-search"
+                o.reason = "solver: unknown; a failing input was found by running the real function (native counterexample search)"
+                o.replay = {"reproduced": True, "detail": w["observed"], "inputs": w["inputs"]}
+    for o in E.obls:
         rep.obligations.append({
             "id": o.id, "func": o.func, "kind": o.kind, "label": o.label, "status": o.status, "backend": o.backend,
             "secs": round(o.secs, 4), "reason": o.reason, "model": o.model_text, "path_notes": o.notes[-12:],
